@@ -148,6 +148,15 @@ def run_impl(case, run):
         out['permuted'] = evaluate(mkds(case['ref'], shape, case['perm']), [mkds(d, shape, case['perm']) for d in case['dss']],
                                    case['alpha'], case['ignore'])
         out['same_object_again'] = _FLAGS.get('same_object_again', True)
+        # datasets edited in place after a first comparison are compared as what they are now
+        if shape and np.asarray(dss[0].error).dtype.kind == 'f' and np.asarray(ref.value).dtype.kind == 'f':
+            dss[0].error *= 2.0
+            ref.value += 1.0
+            fresh_ref = mkds(case['ref'], shape)
+            fresh_ref.value += 1.0
+            fresh = [mkds(d, shape) for d in case['dss']]
+            fresh[0].error *= 2.0
+            out['edited_same'] = evaluate(ref, dss, case['alpha'], case['ignore']) == evaluate(fresh_ref, fresh, case['alpha'], case['ignore'])
         from scipy.stats import chi2 as law
         out['law'] = {'sf_nan': bits(law.sf(float('nan'), 3)),
                       'recomputed': [bits(law.sf(unbits(c), n)) for c, n in zip(out['chi2'], out['ndf'])]}
@@ -195,6 +204,9 @@ def oracle(case, impl, run):
         return [('no_exception', impl['exception'])]
     if impl.get('same_object_again') is False:
         fails.append(('history_independent', 'a second evaluate() on the same test object gives another result'))
+    if impl.get('edited_same') is False:
+        fails.append(('history_independent', 'datasets edited in place after a first comparison do not compare like new datasets '
+                      'with the same content'))
     alpha = case['alpha']
     ref_v = [unbits(x) for x in case['ref']['v']]
     ref_e = [unbits(x) for x in case['ref']['e']]
